@@ -11,14 +11,19 @@
     Proved as well for EVERY input: the lexer never spins.  Every state function, on every cursor, sends a token,
     or leaves fewer bytes in the reader, or moves to a state of lower rank (two rank tables, one while input
     remains and one at its end, nine levels); so fewer than 9 * (bytes left + 1) state calls separate two tokens,
-    and the budget the model gives the pump is never used up.  What is NOT proved is that the parser's own loop
+    and the budget the model gives the pump is never used up.  Stronger, and also for every input: EVERY state call,
+    whether it sends tokens or not, leaves fewer bytes in the reader or moves down in a rank of 46 levels that depends
+    on the state and on the first rune the reader holds; so the lexer reaches its final state within 46 * (bytes + 1)
+    state calls and sends at most four tokens per call: its total work, and the number of tokens (hence of tree
+    nodes), are linear in the input.  What is NOT proved is that the parser's own loop
     ends within its budget ([PBudget], reported as [OHang] too): that rests on the correspondence run only (every
     prefix, deletion and insertion of generated files, random bytes, size-scaling families).  Labelled partial.
     OBLIGATIONS: C06_state_call_emits_few C06_lexer_never_blocks C06_compile_never_deadlocks C06_cursor_stays_in_range
                  C06_lexer_never_panics C06_compile_never_panics C06_state_call_makes_progress C06_lexer_never_spins
-                 C06_only_parser_budget_left C06_loop_bounds_never_reached C06_nonvacuous *)
+                 C06_only_parser_budget_left C06_loop_bounds_never_reached C06_every_state_call_moves_down
+                 C06_lexer_total_work_linear C06_nonvacuous *)
 From GV Require Import Compiler.Compile Proofs.LexProofs Proofs.NoDeadlockProofs Proofs.LexSafeProofs Proofs.NoPanicProofs
-  Proofs.LexProgressProofs Proofs.LexPumpProofs Proofs.NoSpinProofs Proofs.LexFuelProofs.
+  Proofs.LexProgressProofs Proofs.LexPumpProofs Proofs.NoSpinProofs Proofs.LexFuelProofs Proofs.LexTotalProofs Proofs.LexWorkProofs.
 From Coq Require Import Lia.
 
 (** every state function, on every cursor, sends at most four tokens (the channel holds [c_token_queue_cap] tokens,
@@ -76,6 +81,24 @@ Theorem C06_only_parser_budget_left : forall input,
   (compile_parse input = OHang -> parse_bytes input = Crashed PBudget).
 Proof. intro input. split; [apply parse_crash_only_budget|apply compile_hang_only_parser_budget]. Qed.
 Print Assumptions C06_only_parser_budget_left.
+
+(** every state function but the final one, on every cursor, sending tokens or not: the reader never grows, and it
+    shrinks or the rank goes down ([rank2 st l]: a table of 46 levels indexed by the state and by the first rune the
+    reader holds, or the end of input) *)
+Theorem C06_every_state_call_moves_down : forall st l, st <> SNil ->
+  (A (snd (step st l)) <= A l)%nat /\
+  ((A (snd (step st l)) < A l)%nat \/ (rank2 (fst (step st l)) (snd (step st l)) < rank2 st l)%nat).
+Proof. exact step_progress2. Qed.
+Print Assumptions C06_every_state_call_moves_down.
+
+(** the whole run of the lexer on an input ([steps k]: k state calls, the tokens piling up): within 46 * (length + 1)
+    state calls it has reached its final state, and it has sent at most four tokens per call *)
+Theorem C06_lexer_total_work_linear : forall input,
+  let k := (46 * (List.length input + 1))%nat in
+  fst (steps k SGoLineStart (init_lex input)) = SNil /\
+  (ol (snd (steps k SGoLineStart (init_lex input))) <= 4 * k)%nat.
+Proof. exact lexer_total_work_linear. Qed.
+Print Assumptions C06_lexer_total_work_linear.
 
 (** the loops inside the state functions run on the reader's bytes as fuel and return what they have when it is used
     up; that never happens: with any amount of additional fuel they return the same *)
